@@ -122,6 +122,19 @@ add(
     "DESIGN.md 6/C02",
 )
 
+add(
+    "C01",
+    "exploration",
+    "Real Tuner runs in the simulator (all model-free scheduler families, generated tables / delays / sleep times / flags) and over the "
+    "scripted file back-end (arbitrary batching, failures, tape-driven or real schedulers); a life-cycle automaton, occupancy counter and "
+    "notification grammar are checked over the complete recorded history (ids in sequence, <= n_workers, resume only from paused, polled "
+    "set == occupying set, exactly one end notification per run, on_trial_add once and first). 2e4 runs quick, 4e5 thorough.",
+    "'At every moment' = at every back-end / scheduler call of the single-threaded loop. GP searchers are not part of the Tuner-level "
+    "runs (cost); their protocol behaviour is covered through the protocol driver in C06/C13/C14.",
+    "property-based testing (Hypothesis choice tape owning the worker schedule, real Tuner): history invariants (life-cycle automaton)",
+    "DESIGN.md 6/C01",
+)
+
 NOT_YET = {}
 
 ALL = [f"C{i:02d}" for i in range(1, 21)]
